@@ -64,6 +64,27 @@ class Harness(object):
                 self.discharge(ob, pi)
             for fv in ctx.frame_violations:
                 self.results.append(ObResult(self.task.name, 'frame: ' + fv[0], 'sat', 'frame-analysis', 0.0, fv[1], 'frame', fv[2]))
+        # vacuity guard: the hypotheses of (a sample of) the explored paths must not be contradictory -- otherwise every obligation
+        # on them holds for no reason (an inconsistent axiom or precondition in the contract).  `False` must NOT be provable.
+        with_obs = [c for c in ctxs if c.obligations]
+        sample = with_obs[:1] + with_obs[len(with_obs) // 2:len(with_obs) // 2 + 1] + with_obs[-1:] if with_obs else []
+        seen_ids, verdicts = set(), []
+        import z3 as _z3
+        for c in sample:
+            if id(c) in seen_ids:
+                continue
+            seen_ids.add(id(c))
+            s_ = _z3.Solver()
+            s_.set('timeout', 2500)
+            for f in c.obligations[-1].hyps:
+                s_.add(f)
+            verdicts.append(s_.check())
+        if verdicts:
+            # a single infeasible path (one whose infeasibility the explorer could not see in time) is harmless; ALL sampled paths
+            # contradictory means the contract's own axioms / preconditions are inconsistent
+            st = 'canary-verified' if all(v == _z3.unsat for v in verdicts) else 'canary-ok'
+            self.results.append(ObResult(self.task.name, 'canary: the hypotheses of the explored paths are not contradictory (False is not provable; %d paths sampled)' % len(verdicts),
+                                         st, 'z3-%s' % _z3.get_version_string(), 0.0, '', 'canary'))
         return ctxs
 
     def discharge(self, ob, path_index=0):
